@@ -20,8 +20,8 @@ EXTENDS PairEvents, Json, IOUtils, TLCExt
 
 Rec == ndJsonDeserialize(IOEnv.TRACE)
 
-VARIABLES mA, mB, drift, l
-vars == <<mA, mB, drift, l>>
+VARIABLES mA, mB, drift, canon, l
+vars == <<mA, mB, drift, canon, l>>
 
 SeqSet(s) == {s[i] : i \in 1..Len(s)}
 Has(e, f) == f \in DOMAIN e
@@ -29,7 +29,7 @@ Has(e, f) == f \in DOMAIN e
 \* JSON has no sets: keep-sets arrive as sequences
 Norm(e) == IF e.a = "Retain" THEN [e EXCEPT !.keep = SeqSet(@)] ELSE e
 
-Init == mA = EmptyMap /\ mB = EmptyMap /\ drift = 0 /\ l = 1
+Init == mA = EmptyMap /\ mB = EmptyMap /\ drift = 0 /\ canon = TRUE /\ l = 1
 
 \* what every accepted line must satisfy in addition to the event-specific part
 AcctOK(e, m2) ==
@@ -52,14 +52,15 @@ MapStep(e, which) ==
        \* `canon` is not tracked in traces, hence FALSE (the weaker judgement)
        /\ RetAgrees(e, r, ar, Entries(m0), FALSE, IF which = "A" THEN drift ELSE 0)
        /\ Entries(r.m) = ar.E
-       /\ IF which = "A" THEN mA' = r.m /\ mB' = mB /\ drift' = (IF IsClear(e) THEN 0 ELSE drift + DriftDelta(m0, e))
-                         ELSE mB' = r.m /\ mA' = mA /\ drift' = drift
+       /\ IF which = "A" THEN /\ mA' = r.m /\ mB' = mB /\ drift' = (IF IsClear(e) THEN 0 ELSE drift + DriftDelta(m0, e))
+                               /\ canon' = (IF IsClear(e) THEN TRUE ELSE canon /\ CanonKeeps(e))
+                         ELSE mB' = r.m /\ mA' = mA /\ drift' = drift /\ canon' = canon
 
 PairStep(e) ==
     /\ PairObserve(mA, mB, e) = e.ret
     /\ ~e.pan
     /\ PairObserveOK(Entries(mA), Entries(mB), e, e.ret)
-    /\ UNCHANGED <<mA, mB, drift>>
+    /\ UNCHANGED <<mA, mB, drift, canon>>
 
 \* observation-relative batch: judged on the contents the code itself reports
 EntrySet(es) == SeqSet(es)
@@ -92,9 +93,9 @@ ObsStep(e) ==
          /\ q.children = AChildren(E, q.q)                   \* C10
     /\ \A i \in 1..Len(e.vd) : ViewAtOK(E, e.vd[i].q, e.vd[i].d, FALSE)          \* C11
     /\ \A i \in 1..Len(e.fd) : FindFacetOK(E, e.fd[i])                            \* C12
-    /\ UNCHANGED <<mA, mB, drift>>
+    /\ UNCHANGED <<mA, mB, drift, canon>>
 
-ResetStep == mA' = EmptyMap /\ mB' = EmptyMap /\ drift' = 0
+ResetStep == mA' = EmptyMap /\ mB' = EmptyMap /\ drift' = 0 /\ canon' = TRUE
 Step(e) ==
     IF e.a = "Reset" THEN ResetStep
     ELSE IF e.a = "Obs" THEN ObsStep(e)
@@ -136,11 +137,12 @@ Expected(e) ==
              r  == Apply(m0, e)
              ar == AbsApply(Entries(m0), e, r)
          IN [kind |-> "map", ret |-> r.ret, pan |-> r.pan, x |-> <<Len(r.m.a), Len(r.m.f), r.m.c>>,
-             t |-> Tree(r.m), wf |-> WF(r.m), partition |-> Partition(r.m),
+             t |-> Tree(r.m), t0 |-> Tree(m0), wf |-> WF(r.m), partition |-> Partition(r.m),
+             cn |-> (IF IsClear(e) THEN TRUE ELSE canon /\ CanonKeeps(e)), keeps |-> ShapeKeeps(e),
              absok |-> RetAgrees(e, r, ar, Entries(m0), FALSE, drift) /\ Entries(r.m) = ar.E]
 DiagNext == /\ l <= DiagLine
             /\ IF l = DiagLine
-               THEN PrintT(ToJson([diag |-> l, expected |-> Expected(Norm(Rec[l]))])) /\ UNCHANGED <<mA, mB, drift>>
+               THEN PrintT(ToJson([diag |-> l, expected |-> Expected(Norm(Rec[l]))])) /\ UNCHANGED <<mA, mB, drift, canon>>
                ELSE Step(Norm(Rec[l]))
             /\ l' = l + 1
 =============================================================================
